@@ -74,7 +74,7 @@ func c11Gen(r *driver.Rand, thorough bool) *driver.Plan {
 		}
 	}
 	if p.Mode != "pure" && r.Chance(1, 4) {
-		p.SetX("err_kind", 1+r.Intn(3))
+		p.SetX("err_kind", 1+r.Intn(5))
 	}
 	// consumer receive schedules on the virtual clock
 	c := &p.Consumers[0]
